@@ -10,6 +10,15 @@ def H(name, engine="x", pkg="passage-packets", tier="quick", timeout_s=600, mem_
 
 
 PROPS = {}
+# whole-connection harnesses keep their scripts in arrays larger than CBMC's default field-sensitivity limit (64):
+# without this flag element values are not constant-propagated and every loop unwinds to its bound
+# loops that move whole frames / tokens byte by byte get a high bound; every other loop keeps the harness default
+# (chosen to cover the longest legitimate string, 24 bytes). A default that is too small for a reachable loop makes
+# the unwinding assertion fail (inconclusive), never a silent truncation.
+FRAME_LOOPS = [(p, 200) for p in (r"verif_listen::Pipe", r"Vec<u8> as tokio::io::AsyncWrite", r"AsyncWriteExt>::write_all", r"tokio::io::Take<",
+                                  r"CipherStream<", r"^memcmp", r"verif_listen::take", r"try_fill_bytes", r"verif_listen::Script", r"verif_listen::Out",
+                                  r"verif_always_models::mac", r"Cursor<std::vec::Vec<u8>> as tokio::io::AsyncRead>::poll_read", r"verif_c\d+::")]
+FS = ("--no-assertion-reach-checks", "-Z", "unstable-options", "--cbmc-args", "--max-field-sensitivity-array-size", "512")
 
 # properties not (or not yet) claimed, with the reason that goes into MANIFEST.not_applicable
 NOT_APPLICABLE = {
@@ -71,7 +80,7 @@ PROPS["C05"] = {
         H("verif_c05::proofs::write_any_schedule", pkg="passage-protocol", desc="wire == Enc(one stream) of bytes reported written, for every accept/Pending script", bounds="3 plaintext bytes, 4 poll_write calls, script values 0..=255 (255 = Pending), 16-bit cipher state", timeout_s=1500, mem_gb=20),
         H("verif_c05::proofs::read_any_schedule", pkg="passage-protocol", desc="surfaced == Dec(one stream) of bytes produced; pre-filled buffer prefix untouched", bounds="3 ciphertext bytes, 4 poll_read calls, 0 or 2 bytes already in ReadBuf", timeout_s=1500, mem_gb=20),
         H("verif_c05::proofs::switch_mid_connection", pkg="passage-protocol", desc="bytes before set_encryption untouched, stream starts at the switch", bounds="4 bytes, switch point 0..=4"),
-        H("verif_c05::proofs::cfb8_mode_key_is_iv", pkg="passage-protocol", tier="thorough", desc="create_ciphers + real cfb8 crate == reference 8-bit CFB on the aes::Aes128 block function with key = IV = secret; decryptor inverts", bounds="all 16-byte secrets, 3 symbolic plaintext bytes; AES block function replaced by a model block cipher (stub)", timeout_s=5400, mem_gb=40, no_native_replay="AES block function is stubbed by a model cipher under Kani"),
+        H("c05k::proofs::cfb8_mode_key_is_iv", engine="k", tier="thorough", desc="create_ciphers + real cfb8 crate == reference 8-bit CFB on the aes::Aes128 block function with key = IV = secret; decryptor inverts", bounds="all 16-byte secrets, 2 symbolic plaintext bytes; AES block function replaced by a model block cipher (stub)", timeout_s=5400, mem_gb=40, no_native_replay="AES block function is stubbed by a model cipher under Kani"),
         H("verif_c05::proofs::create_ciphers_rejects_wrong_length", pkg="passage-protocol", desc="secret length != 16 refused", bounds="lengths {0,1,15,17,32}"),
     ],
 }
@@ -92,3 +101,50 @@ PROPS["C13"] = {
     ],
 }
 NOT_APPLICABLE.pop("C13", None)
+
+
+PROPS["C06"] = {
+    "level_text": "Bounded model checking of the real Connection::listen script (erased copy) against a scripted client and recording services.",
+    "level_note": "Trusted: Kani/CBMC; erasure rules R1-R11; models of tokio I/O, timers, RSA (oracle), RNG, stream cipher (counter stream keyed by key and IV), JSON codec and MAC (model, interface contract established by C02/C10 unit harnesses).",
+    "assumptions": [],
+    "explanation": "",
+    "harnesses": [
+        H("verif_c06::proofs::status_exchange", pkg="passage-protocol", desc="status flow: one Status Response with the adapter's answer, one Pong echoing the payload, nothing else; only the status adapter is called", bounds="all ping payloads, ports, protocol numbers; status None/Some", timeout_s=1800, mem_gb=16, kani_args=FS),
+    ],
+}
+PROPS["C06"]["claimed"] = False
+
+
+PROPS["C01"] = {
+    "level_text": "Bounded model checking of the real Connection::listen script (erased copy) against a scripted client and recording services.",
+    "level_note": "Trusted: Kani/CBMC; erasure rules R1-R11; models of tokio I/O, timers, RSA (oracle), RNG, stream cipher, JSON codec and MAC.",
+    "assumptions": [], "explanation": "",
+    "harnesses": [
+        H("verif_c01::proofs::fresh_login_uses_authenticated_identity", pkg="passage-protocol", desc="fresh login: auth adapter asked once with claimed identity, decrypted secret and public key; Login Success / filter / strategy carry the profile's identity", bounds="names 2 ASCII bytes, all UUIDs/tokens, intent Login|Transfer, 1 target", timeout_s=2400, mem_gb=24, kani_args=FS, unwindset=FRAME_LOOPS),
+    ],
+}
+PROPS["C01"]["harnesses"].append(H("verif_c01::probes::eof_after_handshake", pkg="passage-protocol", desc="EOF after handshake: ConnectionClosed, nothing written", bounds="-", timeout_s=900, mem_gb=16, kani_args=FS))
+PROPS["C01"]["claimed"] = False
+
+
+PROPS["C04"] = {
+    "level_text": "Bounded model checking of the real decoders and of Connection::receive_packet on fully symbolic client bytes: every serverbound packet decoder and primitive reader on arbitrary 10-18 byte buffers (no panic, overflow or out-of-bounds; allocation requests via vec![x; n] bounded; results no longer than the data; negative length prefixes refused as illegal); the frame gate for every 12-byte prefix and every configured maximum (refused iff length <= 0 or > max, nothing read beyond the prefix); EOF at any offset is an error; verify_token true iff exactly the issued 32 bytes.",
+    "level_note": "Trusted: Kani/CBMC; erasure R1-R9 and the synchronous tokio model (read_exact/read_to_end/take contracts; real tokio's read_to_end allocates adaptively, which is its contract and not checked); UTF-8 model. Outside: whole-connection runs over garbage in every protocol state (listen()-level error paths are not decidable here, see DESIGN §1.13), fastnbt's and rsa's own behaviour on garbage.",
+    "assumptions": ["buffers of 10-18 symbolic bytes", "vec![x; n] stubbed by an allocation-bound assertion (64 KiB)"],
+    "explanation": "",
+    "harnesses": [
+        H("verif_c04::proofs::hostile_handshake", desc="HandshakePacket decoder on arbitrary bytes", bounds="10 symbolic bytes", timeout_s=1200, mem_gb=12),
+        H("verif_c04::proofs::hostile_login_start", desc="LoginStart decoder on arbitrary bytes", bounds="10 symbolic bytes", timeout_s=1200, mem_gb=12),
+        H("verif_c04::proofs::hostile_encryption_response", desc="EncryptionResponse decoder on arbitrary bytes", bounds="10 symbolic bytes", timeout_s=1200, mem_gb=12),
+        H("verif_c04::proofs::hostile_login_cookie_response", desc="login CookieResponse decoder on arbitrary bytes", bounds="10 symbolic bytes", timeout_s=1200, mem_gb=12),
+        H("verif_c04::proofs::hostile_client_information", desc="ClientInformation decoder on arbitrary bytes", bounds="10 symbolic bytes", timeout_s=1200, mem_gb=12),
+        H("verif_c04::proofs::hostile_resource_pack_response", tier="thorough", desc="ResourcePackResponse decoder on arbitrary bytes", bounds="10 symbolic bytes", timeout_s=1200, mem_gb=12),
+        H("verif_c04::proofs::hostile_string_and_bytes", desc="read_string/read_bytes on arbitrary bytes: result bounded by input, allocation bounded", bounds="10 symbolic bytes", timeout_s=1200, mem_gb=12),
+        H("verif_c04::proofs::negative_length_is_refused", desc="every negative length prefix is IllegalPacketLength, nothing consumed beyond it", bounds="all negative i32", timeout_s=1200, mem_gb=12),
+        H("verif_c04::proofs::hostile_primitives", desc="varint/varlong/bool/uuid/text-component(TAG_String) readers on arbitrary bytes", bounds="18 symbolic bytes", timeout_s=1200, mem_gb=12),
+        H("verif_c04::proofs::frame_length_gate", pkg="passage-protocol", desc="receive_packet: refused iff length<=0 or >max, before the body is read", bounds="12 symbolic bytes, any i32 maximum", timeout_s=1800, mem_gb=16, kani_args=FS),
+        H("verif_c04::proofs::eof_anywhere_is_an_error", pkg="passage-protocol", tier="thorough", desc="truncated frame at any offset: receive_packet returns (no hang/panic)", bounds="frame <= 64, 0..11 bytes sent", timeout_s=1800, mem_gb=16, kani_args=FS),
+        H("verif_c04::proofs::verify_token_exact", pkg="passage-protocol", desc="verify_token true iff exactly the issued token", bounds="lengths {0,1,31,32,33}", timeout_s=900, mem_gb=12),
+    ],
+}
+NOT_APPLICABLE.pop("C04", None)
